@@ -48,6 +48,7 @@ fn set_env(p: &prog::Program) {
     k.parallelism = p.env.par as usize;
     k.spurious_park = p.env.spurious_park.map(|x| x as u32);
     k.stall = p.env.stall as u32;
+    k.lock_spin = p.env.lock_spin as u32;
     kanal_verif_rt::ctl::set_knobs(k);
 }
 
